@@ -55,6 +55,8 @@ type Contract struct {
 	GhostSets  []GhostSet
 	DynCall    *Contract // frame assumed for dynamic calls
 	Unreachable []string // names of return covers that are legitimately dead, e.g. return@1
+	SplitPosts  bool     // post and frame obligations per return statement (large functions)
+	Private     []string // heap keys (modifies syntax) that calls without a contract are assumed not to change, see private.go
 	Opaque      []string // callees (by short name) treated as unknown calls inside this function: full havoc, no use of their contract
 }
 
@@ -137,7 +139,7 @@ func newContractSet() *ContractSet {
 }
 
 var clauseKw = map[string]bool{"props": true, "tier": true, "requires": true, "ensures": true, "modifies": true, "loop": true,
-	"panics": true, "inline": true, "pure": true, "assumes": true, "universe": true, "fresh": true, "params": true, "note": true, "funcparam": true, "ghostset": true, "rangeloop": true, "unreachable": true, "dyncall": true, "opaque": true}
+	"panics": true, "inline": true, "pure": true, "assumes": true, "universe": true, "fresh": true, "params": true, "note": true, "funcparam": true, "ghostset": true, "rangeloop": true, "unreachable": true, "dyncall": true, "opaque": true, "private": true, "splitposts": true}
 
 var topKw = map[string]bool{"chancount": true, "changhost": true, "lockonly": true, "lockinv": true, "lockguar": true, "ufunc": true, "smtaxiom": true, "func": true, "trusted": true, "spec": true, "ghost": true, "lemma": true, "axiom": true, "purepkg": true}
 
@@ -472,6 +474,14 @@ func (cs *ContractSet) parseFile(fset *token.FileSet, f *ast.File, pkgPath strin
 				}
 			case "unreachable":
 				cur.Unreachable = append(cur.Unreachable, strings.Fields(it.rest)...)
+			case "splitposts":
+				cur.SplitPosts = true
+			case "private":
+				for _, m := range splitTop(it.rest) {
+					if m = strings.TrimSpace(m); m != "" {
+						cur.Private = append(cur.Private, strings.Fields(m)...)
+					}
+				}
 			case "opaque":
 				cur.Opaque = append(cur.Opaque, strings.Fields(strings.ReplaceAll(it.rest, ",", " "))...)
 			case "ghostset":
